@@ -145,7 +145,7 @@ def close_case(c):
             sim = AggSim(scripts)
         elif sim is None:
             continue
-        elif o[0] == 1 and len(o) == 3 and sim.st in ("init", "yield", "final") and 0 <= o[1] <= 5 and not (ha and o[1] == 1):
+        elif o[0] == 1 and len(o) == 3 and sim.st in ("init", "yield", "final") and 0 <= o[1] <= 6 and not (ha and o[1] == 1):
             sim.access()
         elif o[0] == 2 and len(o) == 4 and sim.st not in ("dead",) and 0 <= o[1] < len(sim.s) and sim.s[o[1]].st == "pend":
             sim.complete(o[1])
@@ -163,7 +163,7 @@ def close_case(c):
 
 def gen_case(rng, engine, name, scripts, n_acc, destroy_early, malformed, bg_complete_p=0.3):
     ha = engine == "aggr1"
-    styles = [0, 2, 3, 4, 5] if ha else [0, 1, 2, 3, 4, 5]
+    styles = [0, 2, 3, 4, 5, 6] if ha else [0, 1, 2, 3, 4, 5, 6]
     ops = [[10] + sc for sc in scripts]
     if malformed and rng.random() < 0.3:
         ops.append([1, 0, 0])
